@@ -100,6 +100,7 @@ def run(tier, seed):
             i += 1
     obs = c15.run_cases(exe, cases, wd, "adversary")
     n = rej = skipped = 0
+    ndep = [0]
     per = {}
     for c, o in zip(cases, obs):
         if "skip" in o or (o.get("agree_all") and (c.get("model_verdict") == "reject" or c["strategy"] == "partiallayer")) or (
@@ -109,6 +110,13 @@ def run(tier, seed):
             # run is the behaviour "committed" of the model, judged where it is enumerated
             skipped += 1
             continue
+        if o.get("alpha_dep") is not None:
+            ndep[0] += len(o["alpha_dep"])
+            if not all(o["alpha_dep"]):
+                v.violation("fri/challenge-independent-of-layer-commitment",
+                            "the folding challenge of layer %s does not change when that layer's commitment is replaced: the prover knows the challenge before it fixes "
+                            "the layer (FriProtocol.tla Order: commit, then draw) (%s/%s/ext%d, folding %d)" % (
+                                [k + 1 for k, x in enumerate(o["alpha_dep"]) if not x], c["field"], c["hasher"], c["ext"], c["fold"]), c)
         n += 1
         ctx = "degree bound %s, blowup %d, folding %d, remainder degree %d, %d queries, %s/%s/ext%d" % (
             c15.bound_text(c), 2 ** c["lb"], c["fold"], c["rem"], c["q"], c["field"], c["hasher"], c["ext"])
@@ -132,13 +140,15 @@ def run(tier, seed):
     vlib.write_evidence(PID, tier, seed, "model_checking", {
         "states": r.distinct + rb.distinct + pstates, "transitions": r.generated + rb.generated + ptrans, "traces_validated_against_impl": n,
         "samples": cases[:3], "evaluations": n, "distinct_nontrivial": n,
+        "challenge_dependency_probes": ndep[0],
         "rule": "strategy x schedule tuple (LDE size <= 2^%d, blowup >= 4), 80 queries (3 for the adaptive strategy); strategies: %s" % (
             10 if tier == "quick" else 13, strategies),
         "exhaustive": False, "per_strategy": per, "rejected": rej, "skipped": skipped,
         "known_finding_occurrences": v.n_known, "new_violations": v.n_new, "notes": v.notes[:5],
     }, time.time() - t0, violations=v.n_new,
         assumptions=["false-accept probability of the non-adaptive strategies is below 2^-40 by the choice of 80 queries, blowup >= 4 and corruption of at least half of the domain",
-                     "soundness is decided for the enumerated strategies, not for all provers"])
+                     "soundness is decided for the enumerated strategies, not for all provers; that a strategy cannot know a folding challenge before it commits to the layer is "
+                     "checked as a dependency: replacing the commitment of layer k changes the k-th challenge the real verifier draws"])
     return rc
 
 
